@@ -84,19 +84,104 @@ func csrSpace() *space {
 		{"attributes", csrAttrs},
 		{"signer", signerNames},
 	}}
-	sp.run = runCSR
+	sp.api = "CreateCertificateRequest"
+	sp.build = func(r *runner, a []int) caseObj { return buildCSR(r, a) }
+	sp.check = checkCSR
+	sp.editAlts = func(f, cur int, full bool) []int { return signerEditAlts(f == 6, f, cur, full, len(sp.fields[f].alts)) }
 	return sp
 }
 
-func runCSR(r *runner, a []int) {
-	c := r.c
+// signerEditAlts: the alternatives a reuse history may switch a field to. Only the joint signer field
+// (108 alternatives = key kind x algorithm) is restricted in the quick tier: it moves along one of its
+// two axes (another algorithm with the same key, or another key with the default algorithm).
+func signerEditAlts(isSigner bool, f, cur int, full bool, n int) []int {
+	var out []int
+	nAlg := len(signerAlts) / len(keyKinds)
+	for v := 0; v < n; v++ {
+		if isSigner && !full && v/nAlg != cur/nAlg && v%nAlg != 0 {
+			continue
+		}
+		out = append(out, v)
+	}
+	return out
+}
+
+// csrCase: the inputs of CreateCertificateRequest and what the request must report.
+type csrCase struct {
+	t   *x509.CertificateRequest
+	k   *keyMat
+	alg x509.SignatureAlgorithm
+
+	wantAttrs                 []atv
+	wantName                  pkix.Name
+	rawSubject, subjectEither bool
+	wantExts                  []xext
+	critStrict, critSupplied  bool
+	wantDNS, wantEmail        []string
+	wantIPs                   []net.IP
+	generatedSAN              bool
+}
+
+func (cs *csrCase) create() ([]byte, error) {
+	return x509.CreateCertificateRequest(fx.NewRand("c05-csr"), cs.t, cs.k.signer)
+}
+
+func (cs *csrCase) inputs() map[string]any { return map[string]any{"template": cs.t} }
+
+func (cs *csrCase) adopt(donor caseObj, f int) {
+	d := donor.(*csrCase)
+	switch f {
+	case 0:
+		// the caller assigns what the new alternative supplies and nothing else: RawSubject is only
+		// touched when the old or the new alternative is about RawSubject (whatever a creation call may
+		// have left in a field the caller never set stays there)
+		cs.t.Subject = d.t.Subject
+		if cs.rawSubject || cs.subjectEither || d.rawSubject || d.subjectEither {
+			cs.t.RawSubject = d.t.RawSubject
+		}
+		cs.rawSubject, cs.subjectEither = d.rawSubject, d.subjectEither
+	case 1:
+		cs.t.DNSNames = d.t.DNSNames
+	case 2:
+		cs.t.EmailAddresses = d.t.EmailAddresses
+	case 3:
+		cs.t.IPAddresses = d.t.IPAddresses
+	case 4:
+		cs.t.ExtraExtensions = d.t.ExtraExtensions
+	case 5:
+		cs.t.Attributes = d.t.Attributes
+	case 6:
+		cs.t.SignatureAlgorithm, cs.alg, cs.k = d.t.SignatureAlgorithm, d.alg, d.k
+	}
+}
+
+func cloneIPs(in []net.IP) []net.IP {
+	if in == nil {
+		return nil
+	}
+	out := make([]net.IP, len(in))
+	for i, ip := range in {
+		out[i] = append(net.IP{}, ip...)
+	}
+	return out
+}
+
+func cloneStrs(in []string) []string {
+	if in == nil {
+		return nil
+	}
+	return append([]string{}, in...)
+}
+
+func buildCSR(r *runner, a []int) *csrCase {
 	subjAlt, extraAlt, attrAlt := csrSubjects[a[0]], csrExtras[a[4]], csrAttrs[a[5]]
-	dns, email, ips := csrDNS[a[1]], csrEmail[a[2]], csrIPs[a[3]].ips
+	// nothing is shared with the alternative tables or with another case
+	dns, email, ips := cloneStrs(csrDNS[a[1]]), cloneStrs(csrEmail[a[2]]), cloneIPs(csrIPs[a[3]].ips)
 	alg := signerAlts[a[6]].alg
 	k := r.key(signerAlts[a[6]].kind)
 
-	// ---- template (fresh per case: CreateCertificateRequest may write into Attributes) ----
-	t := &x509.CertificateRequest{DNSNames: dns, EmailAddresses: email, IPAddresses: ips, SignatureAlgorithm: alg}
+	// ---- template ----
+	t := &x509.CertificateRequest{DNSNames: cloneStrs(dns), EmailAddresses: cloneStrs(email), IPAddresses: cloneIPs(ips), SignatureAlgorithm: alg}
 	var wantAttrs []atv
 	var wantName pkix.Name
 	rawSubject, subjectEither := false, false
@@ -112,10 +197,10 @@ func runCSR(r *runner, a []int) {
 		t.Subject, wantAttrs, wantName = s.name, s.attrs, s.name
 	case "empty":
 	case "raw":
-		t.RawSubject, wantAttrs, rawSubject = rawSubjectDER, rawSubjectAttrs, true
+		t.RawSubject, wantAttrs, rawSubject = append([]byte{}, rawSubjectDER...), rawSubjectAttrs, true
 		wantName = pkix.Name{CommonName: "raw.example", OrganizationalUnit: []string{"räw"}, EmailAddress: []string{"r@example.org"}}
 	case "raw+conflicting-Subject":
-		t.RawSubject, t.Subject, subjectEither = rawSubjectDER, pkix.Name{CommonName: "conflict.example"}, true
+		t.RawSubject, t.Subject, subjectEither = append([]byte{}, rawSubjectDER...), pkix.Name{CommonName: "conflict.example"}, true
 	}
 
 	// expected extensions (multiset of id/value), written from the doc of ExtraExtensions:
@@ -188,23 +273,21 @@ func runCSR(r *runner, a []int) {
 		generatedSAN = true
 	}
 
-	attrLens := make([]int, len(t.Attributes))
-	for i, at := range t.Attributes {
-		if len(at.Value) > 0 {
-			attrLens[i] = len(at.Value[0])
-		}
-	}
+	return &csrCase{t: t, k: k, alg: alg, wantAttrs: wantAttrs, wantName: wantName, rawSubject: rawSubject, subjectEither: subjectEither,
+		wantExts: wantExts, critStrict: critStrict, critSupplied: critSupplied, wantDNS: wantDNS, wantEmail: wantEmail, wantIPs: wantIPs,
+		generatedSAN: generatedSAN}
+}
 
-	// ---- create ----
+// checkCSR judges the outcome of the creation call by the expectations of exp.
+func checkCSR(r *runner, a []int, exp caseObj, der []byte, err error) {
+	c := r.c
+	cs := exp.(*csrCase)
+	k, alg := cs.k, cs.alg
+	wantAttrs, wantName, rawSubject, subjectEither := cs.wantAttrs, cs.wantName, cs.rawSubject, cs.subjectEither
+	wantExts, critStrict, critSupplied := cs.wantExts, cs.critStrict, cs.critSupplied
+	wantDNS, wantEmail, wantIPs, generatedSAN := cs.wantDNS, cs.wantEmail, cs.wantIPs, cs.generatedSAN
+
 	dom := algDomain(k, alg)
-	var der []byte
-	var err error
-	panicked, msg, site := ev.Try(func() { der, err = x509.CreateCertificateRequest(fx.NewRand("c05-csr"), t, k.signer) })
-	c.Transitions.Add(1)
-	if panicked {
-		r.viol("panic@"+site+" in CreateCertificateRequest: "+ev.MsgClass(msg), msg)
-		return
-	}
 	if err != nil {
 		if dom == "must" {
 			r.viol("CreateCertificateRequest fails inside the documented domain: "+ev.MsgClass(err.Error()), err.Error())
@@ -215,19 +298,13 @@ func runCSR(r *runner, a []int) {
 	}
 	r.der = der
 	c.Traces.Add(1)
-	// probe only (the documentation is silent): does creation write into the caller's template?
-	for i, at := range t.Attributes {
-		if at.Type.String() == oidExtReq && len(at.Value) > 0 && len(at.Value[0]) != attrLens[i] {
-			r.out("probe: CreateCertificateRequest appended to the caller's template.Attributes[i].Value[0] (aliasing, undocumented)")
-		}
-	}
 	if dom != "must" {
 		r.out("created with a statement-silent algorithm/key combination (" + algs[alg].name + ")")
 	}
 
 	// ---- parse back (zcrypto) ----
 	var p *x509.CertificateRequest
-	panicked, msg, site = ev.Try(func() { p, err = x509.ParseCertificateRequest(der) })
+	panicked, msg, site := ev.Try(func() { p, err = x509.ParseCertificateRequest(der) })
 	c.Transitions.Add(1)
 	if panicked {
 		r.viol("panic@"+site+" in ParseCertificateRequest of a created request: "+ev.MsgClass(msg), msg)
